@@ -1,0 +1,149 @@
+package pass1
+
+import (
+	"github.com/HobbyOSs/gosk/internal/ast"
+	"github.com/HobbyOSs/gosk/internal/client"
+	"github.com/HobbyOSs/gosk/pkg/asmdb"
+	"github.com/HobbyOSs/gosk/pkg/cpu"
+)
+
+// 分岐命令 (JMP/Jcc/CALL) の形式。pass1 が決めた形式を ocode の第2オペランドとして codegen に伝え、
+// codegen はその形式のとおりに出力する。こうして pass1 が数えたサイズと実際に出力されるサイズが一致する。
+const (
+	BranchShort  = 1 // rel8
+	BranchNear16 = 2 // rel16 (16bit モードのみ)
+	BranchNear32 = 3 // rel32 (16bit モードでは 66h 付き)
+)
+
+// BranchRecord は1回の pass1 走査で見つかった分岐命令1つ分の記録です。
+type BranchRecord struct {
+	Inst   string
+	Mode   cpu.BitMode
+	LOC    int32  // 分岐命令の先頭アドレス
+	Form   int    // この走査で仮定した形式
+	Label  string // ラベルへの分岐ならその名前 (数値アドレスなら空)
+	Target int64  // 数値アドレスへの分岐ならそのアドレス
+}
+
+// BranchFormName は ocode に書く形式名を返します。
+func BranchFormName(form int) string {
+	switch form {
+	case BranchShort:
+		return "SHORT"
+	case BranchNear16:
+		return "NEAR16"
+	default:
+		return "NEAR32"
+	}
+}
+
+// BranchSize は形式ごとの命令長を返します。
+func BranchSize(inst string, mode cpu.BitMode, form int) int32 {
+	opcodeLen := int32(1) // EB / 7x / E9 / E8
+	if form != BranchShort && inst != "JMP" && inst != "CALL" {
+		opcodeLen = 2 // 0F 8x
+	}
+	switch form {
+	case BranchShort:
+		return opcodeLen + 1
+	case BranchNear16:
+		return opcodeLen + 2
+	default:
+		if mode == cpu.MODE_16BIT {
+			return opcodeLen + 4 + 1 // 66h
+		}
+		return opcodeLen + 4
+	}
+}
+
+// smallestBranchForm はその命令とモードで最も短い形式を返します (CALL に rel8 はない)。
+func smallestBranchForm(inst string, mode cpu.BitMode) int {
+	if inst == "CALL" {
+		if mode == cpu.MODE_16BIT {
+			return BranchNear16
+		}
+		return BranchNear32
+	}
+	return BranchShort
+}
+
+// nextBranchForm は1段階大きい形式を返します。これ以上大きくできなければ ok=false。
+func nextBranchForm(mode cpu.BitMode, form int) (next int, ok bool) {
+	switch {
+	case form == BranchShort && mode == cpu.MODE_16BIT:
+		return BranchNear16, true
+	case form == BranchShort, form == BranchNear16:
+		return BranchNear32, true
+	}
+	return form, false
+}
+
+func branchFits(form int, disp int64) bool {
+	switch form {
+	case BranchShort:
+		return disp >= -0x80 && disp <= 0x7f
+	case BranchNear16:
+		return disp >= -0x8000 && disp <= 0x7fff
+	}
+	return true
+}
+
+// noteBranch は分岐命令を記録し、今回の走査で使う形式とサイズを返します。
+func (p *Pass1) noteBranch(inst string, label string, target int64) (form int, size int32) {
+	idx := len(p.Branches)
+	form = smallestBranchForm(inst, p.BitMode)
+	if idx < len(p.BranchForms) && p.BranchForms[idx] > form {
+		form = p.BranchForms[idx]
+	}
+	p.Branches = append(p.Branches, BranchRecord{Inst: inst, Mode: p.BitMode, LOC: p.LOC, Form: form, Label: label, Target: target})
+	return form, BranchSize(inst, p.BitMode, form)
+}
+
+// GrowBranches は走査後のシンボルテーブルで各分岐の変位を確かめ、届かない分岐の形式を大きくします。
+// 1つでも大きくした場合は true を返します (呼び出し側は NextRelaxation で pass1 をやり直す)。
+// 形式は大きくなる一方なので、繰り返しは必ず止まります。
+func (p *Pass1) GrowBranches() bool {
+	forms := make([]int, len(p.Branches))
+	grew := false
+	for i, b := range p.Branches {
+		forms[i] = b.Form
+		target := b.Target
+		if b.Label != "" {
+			addr, defined := p.SymTable[b.Label]
+			if !defined {
+				continue // 未定義ラベルは pass2/codegen が報告する
+			}
+			target = int64(addr)
+		}
+		form := b.Form
+		for !branchFits(form, target-(int64(b.LOC)+int64(BranchSize(b.Inst, b.Mode, form)))) {
+			next, ok := nextBranchForm(b.Mode, form)
+			if !ok {
+				break
+			}
+			form = next
+		}
+		if form != b.Form {
+			forms[i] = form
+			grew = true
+		}
+	}
+	p.BranchForms = forms
+	return grew
+}
+
+// NextRelaxation は、大きくした分岐形式を引き継いだ新しい Pass1 を返します。
+func (p *Pass1) NextRelaxation(symTable map[string]int32, globalSymbolList []string, c client.CodegenClient) *Pass1 {
+	return &Pass1{
+		LOC:              0,
+		BitMode:          cpu.MODE_16BIT,
+		SymTable:         symTable,
+		GlobalSymbolList: globalSymbolList,
+		ExternSymbolList: []string{},
+		Client:           c,
+		AsmDB:            asmdb.NewInstructionDB(),
+		MacroMap:         make(map[string]ast.Exp),
+		RelaxBranches:    true,
+		BranchForms:      p.BranchForms,
+	}
+}
